@@ -550,16 +550,22 @@ def specM (kind : QKind) (keys : List Bytes) (σ : St) : MOp → St × QRes
   | .a k o => match validate o with
     | .ok qo => (upd σ k (specQ cls kind (σ k) (.op qo)).1, (specQ cls kind (σ k) (.op qo)).2)
     | .error r => (σ, r)          -- a rejected call is the identity of the specification
-  | .reopen pre => (fun k => if k ∈ keys then (if σ k = [] then initS kind (pre k) else σ k) else σ k, .bool true)
+  | .reopen pre => (fun k => if k ∈ keys then (match pre k with
+      | some p => if σ k = [] then initS kind p else σ k
+      | none => σ k) else σ k, .bool true)
 
 def specMRun (kind : QKind) (keys : List Bytes) : St → List MOp → List (QRes × List (List Bytes × Except Exn (List Bytes)))
   | _, [] => []
   | σ, o :: os => ((specM cls kind keys σ o).2, keys.map (fun k => ((specM cls kind keys σ o).1 k, .ok ((specM cls kind keys σ o).1 k)))) ::
       specMRun kind keys (specM cls kind keys σ o).1 os
 
-def preWeight (pre : Bytes → List Bytes) : List Bytes → Nat
+def preLen : Option (List Bytes) → Nat
+  | some p => p.length
+  | none => 0
+
+def preWeight (pre : Bytes → Option (List Bytes)) : List Bytes → Nat
   | [] => 0
-  | k :: ks => (pre k).length + preWeight pre ks
+  | k :: ks => preLen (pre k) + preWeight pre ks
 
 def mweight (keys : List Bytes) : MOp → Nat
   | .q _ o => hweight (.op o)
@@ -582,48 +588,64 @@ structure MInv (K : Bytes → Prop) (kind : QKind) (keys : List Bytes) (n : Nat)
 
 theorem injectAll_spec {kind : QKind} (hinj : kind = .dusq → ∀ a b, cls a = cls b → a = b)
     {K : Bytes → Prop} {B : Nat} (hG : ∀ k, K k → ExactAt K k B) (hB : B < 16 ^ W) (hvk : ∀ k, K k → validKey (suffix k 0) = true)
-    (keys : List Bytes) (hkeys : ∀ k ∈ keys, K k) (pre : Bytes → List Bytes) :
+    (keys : List Bytes) (hkeys : ∀ k ∈ keys, K k) (pre : Bytes → Option (List Bytes)) :
     ∀ (ks : List Bytes), ks.Nodup → (∀ k ∈ ks, k ∈ keys) → ∀ (n : Nat) (db : Db) (ms : MS), MInv K kind keys n db ms →
       n + preWeight pre ks ≤ B →
       ∃ db' ms', injectAll cls kind pre ks db ms = (db', ms', none) ∧ MInv K kind keys (n + preWeight pre ks) db' ms' ∧
-        ∀ k, (ms' k).mem = if k ∈ ks then (if (ms k).mem = [] then initS kind (pre k) else (ms k).mem) else (ms k).mem
+        ∀ k, (ms' k).mem = if k ∈ ks then (match pre k with
+          | some p => if (ms k).mem = [] then initS kind p else (ms k).mem
+          | none => (ms k).mem) else (ms k).mem
   | [], _, _, n, db, ms, hm, _ => ⟨db, ms, rfl, hm, fun _ => by simp⟩
   | k :: ks, hnd, hks, n, db, ms, hm, hw => by
     have hkm := hks k (List.mem_cons_self ..)
     have hk := hkeys k hkm
     have hnd' := List.nodup_cons.mp hnd
     simp only [preWeight] at hw
-    have hq : QInv K k kind n db (ms k).mem (absIo db) := ⟨hm.rel, (hm.each k hkm).1, (hm.each k hkm).2.1, fun _ _ => rfl⟩
-    obtain ⟨db', q', h1, h2, h3⟩ := hstep_refines cls hinj hk (hG k hk) hB (hvk k hk) hq (hm.each k hkm).2.2 (.reopen (pre k))
-      (by simp only [hweight]; omega)
-    have hst' : q'.stale = false := by
-      have := hstep_stale cls kind k db (ms k) (.reopen (pre k)) (hm.each k hkm).2.2; rw [h1] at this; exact this
-    have hinjq : inject cls kind k db (pre k) = (db', .ok q') := by
-      simp only [hstep] at h1
-      cases hi : inject cls kind k db (pre k) with
-      | mk d r =>
-        rw [hi] at h1
-        cases r with
-        | error x => simp [specQ] at h1
-        | ok q0 => simp only [Prod.mk.injEq] at h1; rw [h1.1, h1.2.1]
-    have hmem : q'.mem = if (ms k).mem = [] then initS kind (pre k) else (ms k).mem := by rw [h2]; rfl
-    have hm' : MInv K kind keys (n + (pre k).length) db' (setQ ms k q') := by
-      refine ⟨h3.rel, ?_⟩
-      intro k2 hk2
-      by_cases e : k2 = k
-      · subst e; simp only [setQ, ↓reduceIte]; exact ⟨h3.mirror, h3.nodup, hst'⟩
-      · simp only [setQ, e, ↓reduceIte]
-        rw [h3.others k2 e]; exact hm.each k2 hk2
-    obtain ⟨db'', ms'', h4, h5, h6⟩ := injectAll_spec hinj hG hB hvk keys hkeys pre ks hnd'.2
-      (fun k2 hk2 => hks k2 (List.mem_cons_of_mem _ hk2)) _ db' (setQ ms k q') hm' (by omega)
-    refine ⟨db'', ms'', by simp only [injectAll, hinjq, h4], ?_, ?_⟩
-    · simp only [preWeight]; rw [← Nat.add_assoc]; exact h5
-    · intro k2
-      rw [h6 k2]
-      by_cases e : k2 = k
-      · subst e
-        simp [setQ, hnd'.1, hmem]
-      · simp [setQ, e]
+    cases hp : pre k with
+    | none =>
+      simp only [hp, preLen, Nat.zero_add] at hw
+      obtain ⟨db'', ms'', h4, h5, h6⟩ := injectAll_spec hinj hG hB hvk keys hkeys pre ks hnd'.2
+        (fun k2 hk2 => hks k2 (List.mem_cons_of_mem _ hk2)) n db ms hm hw
+      refine ⟨db'', ms'', by simp only [injectAll, hp, (hm.each k hkm).2.2, Bool.false_eq_true, ↓reduceIte, h4], ?_, ?_⟩
+      · simp only [preWeight, hp, preLen, Nat.zero_add]; exact h5
+      · intro k2
+        rw [h6 k2]
+        by_cases e : k2 = k
+        · subst e; simp [hnd'.1, hp]
+        · simp [e]
+    | some p =>
+      simp only [hp, preLen] at hw
+      have hq : QInv K k kind n db (ms k).mem (absIo db) := ⟨hm.rel, (hm.each k hkm).1, (hm.each k hkm).2.1, fun _ _ => rfl⟩
+      obtain ⟨db', q', h1, h2, h3⟩ := hstep_refines cls hinj hk (hG k hk) hB (hvk k hk) hq (hm.each k hkm).2.2 (.reopen p)
+        (by simp only [hweight]; omega)
+      have hst' : q'.stale = false := by
+        have := hstep_stale cls kind k db (ms k) (.reopen p) (hm.each k hkm).2.2; rw [h1] at this; exact this
+      have hinjq : inject cls kind k db p = (db', .ok q') := by
+        simp only [hstep] at h1
+        cases hi : inject cls kind k db p with
+        | mk d r =>
+          rw [hi] at h1
+          cases r with
+          | error x => simp [specQ] at h1
+          | ok q0 => simp only [Prod.mk.injEq] at h1; rw [h1.1, h1.2.1]
+      have hmem : q'.mem = if (ms k).mem = [] then initS kind p else (ms k).mem := by rw [h2]; rfl
+      have hm' : MInv K kind keys (n + p.length) db' (setQ ms k q') := by
+        refine ⟨h3.rel, ?_⟩
+        intro k2 hk2
+        by_cases e : k2 = k
+        · subst e; simp only [setQ, ↓reduceIte]; exact ⟨h3.mirror, h3.nodup, hst'⟩
+        · simp only [setQ, e, ↓reduceIte]
+          rw [h3.others k2 e]; exact hm.each k2 hk2
+      obtain ⟨db'', ms'', h4, h5, h6⟩ := injectAll_spec hinj hG hB hvk keys hkeys pre ks hnd'.2
+        (fun k2 hk2 => hks k2 (List.mem_cons_of_mem _ hk2)) _ db' (setQ ms k q') hm' (by omega)
+      refine ⟨db'', ms'', by simp only [injectAll, hp, hinjq, h4], ?_, ?_⟩
+      · simp only [preWeight, hp, preLen]; rw [← Nat.add_assoc]; exact h5
+      · intro k2
+        rw [h6 k2]
+        by_cases e : k2 = k
+        · subst e
+          simp [setQ, hnd'.1, hmem, hp]
+        · simp [setQ, e]
 
 theorem mstep_refines_q {kind : QKind} (hinj : kind = .dusq → ∀ a b, cls a = cls b → a = b)
     {K : Bytes → Prop} {B : Nat} (hG : ∀ k, K k → ExactAt K k B) (hB : B < 16 ^ W) (hvk : ∀ k, K k → validKey (suffix k 0) = true)
@@ -667,7 +689,7 @@ theorem mstep_refines {kind : QKind} (hinj : kind = .dusq → ∀ a b, cls a = c
     obtain ⟨db', ms', h1, h2, h3⟩ := injectAll_spec cls hinj hG hB hvk keys hkeys pre keys hnd (fun _ h => h) n db ms hm
       (by simpa [mweight] using hw)
     simp only [mstep, h1, specM, mweight]
-    exact ⟨trivial, h2, fun k hk => by rw [h3 k]; simp [hk, hσ k hk]⟩
+    exact ⟨trivial, h2, fun k hk => by rw [h3 k]; simp only [hk, ↓reduceIte, hσ k hk]⟩
   | q k qo => exact mstep_refines_q cls hinj hG hB hvk keys hkeys hm hσ k qo (ho k rfl) hw
   | a k ao =>
     cases hv : validate ao with
